@@ -143,6 +143,89 @@ def run_case(dev, ops):
     return msgs
 
 
+def _eom_dev():
+    from pulser.channels.eom import RydbergBeam, RydbergEOM
+    from pulser.devices import Device
+    eom = lambda: RydbergEOM(mod_bandwidth=30.0, limiting_beam=RydbergBeam.RED, max_limiting_amp=50 * 2 * np.pi,   # noqa: E731
+                             intermediate_detuning=800 * 2 * np.pi, controlled_beams=(RydbergBeam.BLUE,))
+    return Device(name="TwoEOM", dimensions=2, rydberg_level=70, max_atom_num=20, max_radial_distance=50, min_atom_distance=4,
+                  channel_objects=(Rydberg.Global(1000, 200, clock_period=1, min_duration=1, mod_bandwidth=4.0, eom_config=eom()),
+                                   Rydberg.Local(2 * np.pi * 20, 2 * np.pi * 10, max_targets=2, fixed_retarget_t=0, clock_period=4,
+                                                 min_retarget_interval=220, mod_bandwidth=4.0, eom_config=eom())))
+
+
+def gen_eom_case(rng):
+    ops = []
+    for _ in range(rng.choice([3, 5, 8])):
+        ops.append((rng.choice(["enable", "disable", "add", "add_eom", "delay", "query", "use_variable", "enable", "disable"]), rng.choice(["ch0", "ch1"])))
+    return dict(kind="eom", param_first=rng.random() < 0.7), ops
+
+
+def run_eom_case(dev, ops):
+    """EOM typestate per channel on plain and parametrized sequences with two EOM channels: what a channel accepts depends on its own mode only"""
+    msgs = []
+    with warnings.catch_warnings():
+        warnings.simplefilter("ignore")
+        reg = Register.from_coordinates([(0, 0), (0, 6)], prefix="q")
+        seq = Sequence(reg, _eom_dev())
+        seq.declare_channel("ch0", "rydberg_global")
+        seq.declare_channel("ch1", "rydberg_local", initial_target="q0")
+        dt = seq.declare_variable("dt", dtype=int)
+        if dev["param_first"]:
+            seq.delay(dt, "ch0")
+        mode = {"ch0": False, "ch1": False}
+        for i, (k, ch) in enumerate(ops):
+            dur = dt if seq.is_parametrized() else 100
+            why = None
+            if k == "enable":
+                why = "EOM mode is enabled on a channel already in EOM mode" if mode[ch] else None
+                call = lambda: seq.enable_eom_mode(ch, 1.0, 0.0)   # noqa: E731
+            elif k == "disable":
+                why = None if mode[ch] else "EOM mode is disabled on a channel that is not in EOM mode"
+                call = lambda: seq.disable_eom_mode(ch)   # noqa: E731
+            elif k == "add":
+                why = "an ordinary pulse is accepted on a channel in EOM mode" if mode[ch] else None
+                call = lambda: seq.add(Pulse.ConstantPulse(dur, 1.0, 0.0, 0.0), ch)   # noqa: E731
+            elif k == "add_eom":
+                why = None if mode[ch] else "an EOM pulse is accepted outside EOM mode"
+                call = lambda: seq.add_eom_pulse(ch, dur, 0.0)   # noqa: E731
+            elif k == "delay":
+                call = lambda: seq.delay(dur, ch)   # noqa: E731
+            elif k == "use_variable":
+                call = lambda: seq.delay(dt, ch)   # noqa: E731
+            else:
+                got = seq.is_in_eom_mode(ch)
+                if got != mode[ch]:
+                    return [f"step {i} {(k, ch)}: is_in_eom_mode({ch!r}) is {got} but the channel's latest EOM control left it {'in' if mode[ch] else 'out of'} EOM mode"]
+                continue
+            try:
+                call()
+                ok = True
+            except Exception as ex:
+                ok, err = False, ex
+            if ok and why:
+                return [f"step {i} {(k, ch)}: accepted although {why}"]
+            if not ok and why is None:
+                return [f"step {i} {(k, ch)}: refused ({err!r}) although the channel's own mode allows it"]
+            if ok and k == "enable":
+                mode[ch] = True
+            if ok and k == "disable":
+                mode[ch] = False
+            for c2 in ("ch0", "ch1"):
+                if seq.is_in_eom_mode(c2) != mode[c2]:
+                    return [f"step {i} {(k, ch)}: afterwards is_in_eom_mode({c2!r}) is {seq.is_in_eom_mode(c2)}, expected {mode[c2]}"]
+    return msgs
+
+
+_run_plain = run_case
+
+
+def run_case(dev, ops):   # noqa: F811
+    if dev.get("kind") == "eom":
+        return run_eom_case(dev, ops)
+    return _run_plain(dev, ops)
+
+
 def run(rng, budget_s, known_match):
     import time
     t0 = time.time()
@@ -151,7 +234,7 @@ def run(rng, budget_s, known_match):
                 (dict(reusable=False, n_dmm=1, with_mw=False), [("declare", "a", "ryd_a"), ("measure",), ("slm", "dmm_0"), ("detmap", "dmm_0"), ("declare", "b", "ram")]),
                 (dict(reusable=False, n_dmm=1, with_mw=False), [("declare", "a", "ryd_a"), ("use_variable",), ("detmap", "dmm_0"), ("detmap", "dmm_0"), ("inspect", "get_duration")])]
     while time.time() - t0 < budget_s:
-        dev, ops = scripted.pop(0) if scripted else gen_case(rng)
+        dev, ops = scripted.pop(0) if scripted else (gen_eom_case(rng) if rng.random() < 0.35 else gen_case(rng))
         try:
             msgs = run_case(dev, ops)
         except Exception as ex:
